@@ -19,7 +19,8 @@ EXPLANATION = (
     "triaged table; (R4) string-map lookups on decode are error exits on a missing index."
     " (R5) reused destination: read_site / read_record_buf overwrite every column of the vcf RecordBuf they decode into; (R6) append-buffer discipline of the BCF header's text reader."
     " (R7) sibling guard agreement: the per-type copies of the FORMAT value decoders (Int8/Int16/Int32/Float, vector and scalar) reach their `push(None)` sites under the same edge-dominance guard signature."
-    " (R8) the async BCF writer clears its record buffer before the encoder fills it; (R9) the dictionary of strings only grows: a length-changing Vec operation on StringMap.entries is a resize on one edge only of a comparison with its own length (or with a max(len, ..) length); (R10) the VCF header writer, whose text the BCF reader numbers the dictionary from, and StringMaps::try_from(&Header), which the BCF writer numbers it with, visit INFO / FILTER / FORMAT in the same order.")
+    " (R8) the async BCF writer clears its record buffer before the encoder fills it; (R9) the dictionary of strings only grows: a length-changing Vec operation on StringMap.entries is a resize on one edge only of a comparison with its own length (or with a max(len, ..) length); (R10) the VCF header writer, whose text the BCF reader numbers the dictionary from, and StringMaps::try_from(&Header), which the BCF writer numbers it with, visit INFO / FILTER / FORMAT in the same order."
+    " (R11) sibling shape: the end-of-vector padding loop (0..max_len - len) of every typed sample writer is enclosed by the per-sample loop only (genuine defect F43, repaired: the genotype writer padded inside the allele loop).")
 ASSUMPTIONS = ["interval reasoning is dominance-based; per-sample padding and vector length logic are value-level"]
 NOT_DECIDED = ["full record equality, per-sample padding of unequal-length vectors, float bit patterns beyond the reserved-NaN constants"]
 
@@ -202,6 +203,10 @@ def run(ctx):
                         "StringMaps::try_from(&Header) (which the BCF writer numbers it with) visit INFO / FILTER / FORMAT in the same order")
     dictionary_order_rule(ctx, "C10.R10")
 
+    ctx.rule("C10.R11", "A7 sibling shape: the end-of-vector padding of a shorter per-sample vector is written once per sample, after its values "
+                        "(not nested in the value loop), in every typed sample writer")
+    padding_loop_rule(ctx, "C10.R11", 4)
+
     ctx.rule("C10.R4", "string-map lookups on decode are error exits on a missing index")
     n = 0
     for k, f in sorted(fb.fns.items()):
@@ -323,3 +328,47 @@ def dictionary_order_rule(ctx, rule):
                       "different key on read" % ("/".join(x.upper()[:-1] for x in ow), " < ".join(ow), " < ".join(ot)), fw.loc())
     else:
         ctx.ok(rule, "write_header and StringMaps::try_from visit %s in the same order" % " < ".join(ow), "", fw.loc())
+
+
+
+def padding_loop_rule(ctx, rule, floor):
+    """padded per-sample vectors: in the BCF sample value writers the loop that writes `pad = max_len - len` end-of-vector markers
+    runs once per SAMPLE, after the sample's own values: it is enclosed by exactly one loop (the per-sample loop). Nested inside the
+    per-value loop (defect F43) every value of a shorter sample is followed by the padding and the series is garbage."""
+    fb = ctx.fb
+    n = 0
+    for k, f in sorted(fb.fns.items()):
+        if not k.startswith("noodles_bcf::record::codec::encoder::samples::values::") or not f.blocks or f.is_closure:
+            continue
+        loops = C.natural_loops(f)
+        heads = {}
+        for h, body in loops:
+            heads.setdefault(h, set()).update(body)
+        subs = set()
+        for blk in f.blocks:
+            for st in blk["s"]:
+                if st[0] == "=" and not st[1][1] and st[2][0] == "bin" and st[2][1] in ("Sub", "SubWithOverflow"):
+                    subs |= a10._derived_from(f, st[1][0])
+        for bi, blk in enumerate(f.blocks):
+            for st in blk["s"]:
+                if not (st[0] == "=" and st[2][0] == "agg" and st[2][1] == "adt" and st[2][2].endswith("ops::range::Range") and len(st[2][4]) == 2):
+                    continue
+                if C.op_local(st[2][4][1]) not in subs:
+                    continue
+                it = a10._derived_from(f, st[1][0])
+                nexts = [b for b, c in f.calls() if re.search(r"Iterator(>| for .*>)::next$", c.get("f") or "") and c["args"] and C.op_local(c["args"][0]) in it]
+                if not nexts:
+                    continue
+                n += 1
+                ctx.saw_fn(f)
+                enclosing = [h for h, body in heads.items() if nexts[0] in body]
+                if len(enclosing) == 2:
+                    ctx.ok(rule, k + " :: padding loop", "enclosed by the per-sample loop only (a sibling of the value loop)", f.loc(bi))
+                elif len(enclosing) > 2:
+                    ctx.violation(rule, "%s/padding-inside-value-loop/%s" % (rule, k),
+                                  "%s writes the end-of-vector padding of a shorter sample INSIDE the loop over that sample's values (%d enclosing "
+                                  "loops): every value is followed by the padding, the series has the wrong length and every later sample is read "
+                                  "from the wrong offset" % (k, len(enclosing) - 1), f.loc(bi))
+                else:
+                    ctx.ok(rule, k + " :: padding loop", "%d enclosing loop(s)" % (len(enclosing) - 1), f.loc(bi))
+    ctx.floor(rule, "padding loops (0..max_len - len) in the BCF sample value writers", n, floor)
